@@ -10,9 +10,9 @@ Local Open Scope list_scope.
     the files sees exactly what the server is acting on *)
 Theorem C09_frames_after_commit :
   forall cfg, 0 < exp cfg ->
-  forall t0 h o c f clean_flag,
+  forall t0 h o c f clean_flag tx,
     In o (snd (run cfg (init cfg t0) h)) ->
-    In (LFrame c f clean_flag) (o_log o ++ o_boot_log o) -> clean_flag = true.
+    In (LFrame c f clean_flag tx) (o_log o ++ o_boot_log o) -> clean_flag = true.
 Proof. exact frames_after_commit. Qed.
 Print Assumptions C09_frames_after_commit.
 
